@@ -163,7 +163,7 @@ func VerifFxStrings() {
 // ---- cast ----
 
 var fxCastTypes = []string{"bool", "int", "float", "str", "string"}
-var fxCastSamples = []string{"12", "1.5", "true", "abc"}
+var fxCastSamples = []string{"12", "1.5", "true", "abc", "010", "-7"}
 
 // fxCastRef: the conversion table written from fn.md ("convert the key's value to the given
 // type: str, float, int, bool"). pinned=false: the documentation does not say (unparseable
@@ -188,8 +188,13 @@ func fxCastRef(x fxVal, ty string) (fxVal, bool) {
 			}
 			return fxVal{int64(0), ast.Int}, true
 		case string:
-			if v == "12" {
+			switch v {
+			case "12":
 				return fxVal{int64(12), ast.Int}, true
+			case "010": // decimal text: a leading zero is not a radix prefix
+				return fxVal{int64(10), ast.Int}, true
+			case "-7":
+				return fxVal{int64(-7), ast.Int}, true
 			}
 		}
 	case "float":
@@ -206,6 +211,12 @@ func fxCastRef(x fxVal, ty string) (fxVal, bool) {
 		case string:
 			if v == "12" {
 				return fxVal{float64(12), ast.Float}, true
+			}
+			if v == "010" {
+				return fxVal{float64(10), ast.Float}, true
+			}
+			if v == "-7" {
+				return fxVal{float64(-7), ast.Float}, true
 			}
 			if v == "1.5" {
 				return fxVal{float64(1.5), ast.Float}, true
